@@ -15,7 +15,7 @@
 #endif
 #define MAXI 8
 static int calls[MAXI], ncalls, order[MAXI * 2], completed, caller_calls; static _Bool bad_index; static u64 da_addr; static int da_frees;
-static u64 Q0;
+static u64 Q0, Q1;
 static _Bool hist_other_callout(u64 ctxt, u64 f) { return 0; }
 static void hist_item_body(int i) { }
 static void hist_on_worker_start(void) { } static void hist_on_worker_end(void) { }
@@ -24,7 +24,7 @@ u32 _dispatch_qos_max_parallelism(u32 qos, u64 flags) { return THR; }
 void _dispatch_root_queue_poke(u64 dq, u32 n, u32 floor) { }
 /* helper continuations pushed to the root queue: handed to the pool-worker list of hist.h */
 void _dispatch_root_queue_push_inline(u64 rq, u64 head, u64 tail, u32 n) {
-#if TARGET == 2
+#if TARGET == 2 || TARGET == 3
   { u64 st = IR_LD64(Q0 + P_OFF_dq_state); u64 reserved = ((st >> 41) & 0x1fff) - (0x1000ull - CW);
     ASSERT(reserved <= CW, "WIDTH: dispatch_apply never reserves more reader width than the queue has");
     ASSERT((u64)n + 1 <= reserved, "WIDTH: the number of threads working on the apply (helpers + caller) is at most the reader width reserved on the queue (they behave as non-barrier items of that queue)"); }
@@ -46,21 +46,28 @@ void harness(void) {
   Q0 = G__dispatch_root_queues + 6ull * P_SZ_rootq;       /* the default-QoS global queue */
 #elif TARGET == 1
   Q0 = dispatch_queue_create(0, 0);
+#elif TARGET == 3   /* a concurrent queue of width CW whose target is a serial queue: the serial level grants no reader width, the apply falls back to the serial path - and must give back what it reserved above */
+  Q1 = dispatch_queue_create(0, 0);
+  Q0 = dispatch_queue_create(0, IR_NOGLOBAL); IR_ST16(Q0 + P_OFF_dq_width, CW); IR_ST64(Q0 + P_OFF_dq_state, (IR_LD64(Q0 + P_OFF_dq_state) & ~0x003ffe0000000000ull) | ((0x1000ull - CW) << 41));
+  IR_ST64(Q0 + P_OFF_do_targetq, Q1);
 #else
   Q0 = dispatch_queue_create(0, IR_NOGLOBAL); IR_ST16(Q0 + P_OFF_dq_width, CW); IR_ST64(Q0 + P_OFF_dq_state, (IR_LD64(Q0 + P_OFF_dq_state) & ~0x003ffe0000000000ull) | ((0x1000ull - CW) << 41));
 #endif
-  u64 st0 = (TARGET != 0) ? IR_LD64(Q0 + P_OFF_dq_state) : 0;
+  u64 st0 = (TARGET != 0) ? IR_LD64(Q0 + P_OFF_dq_state) : 0, st1 = (TARGET == 3) ? IR_LD64(Q1 + P_OFF_dq_state) : 0;
   dispatch_apply_f(NITER, Q0, 0xABCD, FN_WORK);
   /* --- at the moment dispatch_apply returns --- */
   ASSERT(completed == NITER, "RETURNS-AFTER-ALL: dispatch_apply returns only after all n invocations have finished");
   for (int i = 0; i < MAXI; i++) ASSERT(calls[i] == (i < NITER ? 1 : 0), "EVERY-INDEX-ONCE: work is invoked exactly once for each index in 0..n-1 and for no other value");
-#if TARGET == 1
+#if TARGET == 1 || TARGET == 3
   for (int k = 0; k < MAXI; k++) if (k < NITER) ASSERT(order[k] == k, "SERIAL: on a serial queue the invocations are sequential in index order");
 #endif
   /* helpers that did not run yet find nothing left to do */
   for (int r = 0; r < 6 && npend > 0; r++) run_one_worker(0);
   ASSERT(npend == 0, "harness bound: helpers still pending");
   for (int i = 0; i < MAXI; i++) ASSERT(calls[i] == (i < NITER ? 1 : 0), "EVERY-INDEX-ONCE: late helpers do not invoke anything again");
+#if TARGET == 3
+  ASSERT(IR_LD64(Q1 + P_OFF_dq_state) == st1, "WIDTH: the serial target queue is left as it was");
+#endif
 #if TARGET != 0
   ASSERT(IR_LD64(Q0 + P_OFF_dq_state) == st0, "WIDTH: the reader width reserved on the queue has been given back (state word as before)");
 #endif
